@@ -23,7 +23,9 @@ RENDERABLE = ["BadRequest", "Unauthorized", "BadOption", "Forbidden", "NotFound"
               "HopLimitReached"]
 BARE = ["raise:py:KeyError", "raise:py:AssertionError", "raise:py:ValueError", "raise:py:RuntimeError",
         "raise:py:Exception", "ret:none", "ret:str", "ret:bytes", "ret:int", "badrender",
-            "unencodable:payload", "unencodable:option"]
+            "unencodable:payload", "unencodable:option", "badrender:none", "badrender:nonmessage",
+            "raise:lib:ResponseWrappingError", "raise:lib:NetworkError", "raise:lib:LibraryShutdown",
+            "raise:lib:OSError", "raise:lib:TimeoutError", "raise:lib:ConnectionResetError"]
 OUTCOMES = ["ok", "nocode"] + ["raise:" + n for n in RENDERABLE] + BARE
 NAMES = {1: "GET", 2: "POST", 3: "PUT", 4: "DELETE", 5: "FETCH", 6: "PATCH", 7: "IPATCH"}
 
@@ -101,11 +103,19 @@ def random_schedule(rng):
     steps = []
     nosite = rng.random() < 0.05
     t = 0
+    long_run = False
     for i in range(1, n + 1):
         method = rng.choice([1, 2, 3, 4, 5, 6, 7])
         outcome = rng.choice(OUTCOMES)
         kind = rng.choices(["", "nopath", "unimpl"], weights=[8, 1, 1])[0]
+        if rng.random() < 0.06:
+            # request codes no method is assigned to reach the server all the same: no resource implements them
+            method = rng.choice([8, 9, 30, 31])
+            kind = rng.choice(["unimpl", "unimpl", "nopath"])
         delay = rng.choice([0, 0, 20, 127, 129, 400, 1500])
+        if rng.random() < 0.04:
+            delay = rng.choice([100 * 1024, 250 * 1024, 300 * 1024])   # slower than MAX_TRANSMIT_WAIT / EXCHANGE_LIFETIME
+            long_run = True
         plan = {"delay": delay, "outcome": outcome, "len": rng.choice([0, 8, 60])}
         if kind == "unimpl":
             plan["methods"] = [m for c, m in NAMES.items() if c != method]
@@ -120,7 +130,7 @@ def random_schedule(rng):
     trig = [{"on": {"tx": {"ty": "CON", "cls": "resp", "nth": k}}, "delay": rng.choice([1, 4, 900, 2600, 7000]),
              "rx": {"ty": "ACK", "code": 0, "mid": "same"}} for k in range(1, 8)]
     return {"tuning": {"EMPTY_ACK_DELAY": 0.125}, "mid0": rng.randint(0, 65535), "tok0": 3, "nremotes": 2,
-            "handlers": handlers, "nosite": nosite, "steps": steps, "triggers": trig, "horizon": 120 * 1024}
+            "handlers": handlers, "nosite": nosite, "steps": steps, "triggers": trig, "horizon": (700 if long_run else 120) * 1024}
 
 
 def systematic():
@@ -135,6 +145,20 @@ def systematic():
                                 "steps": [{"at": 10, "do": "rx", "r": 1, "ty": ty, "code": method, "mid": 77, "tok": "ab", "path": ["h", "1"]}],
                                 "triggers": [{"on": {"tx": {"ty": "CON", "cls": "resp", "nth": 1}}, "delay": 2, "rx": {"ty": "ACK", "code": 0, "mid": "same"}}],
                                 "horizon": 4000})
+    # request codes without an assigned method, and handlers slower than the protocol's lifetimes
+    for method in (8, 19, 31):
+        for ty in ("CON", "NON"):
+            out.append({"tuning": {"EMPTY_ACK_DELAY": 0.125}, "mid0": 7, "tok0": 3, "nremotes": 1,
+                        "handlers": {"1": {"delay": 0, "outcome": "ok", "len": 8, "methods": list(NAMES.values())}},
+                        "steps": [{"at": 10, "do": "rx", "r": 1, "ty": ty, "code": method, "mid": 77, "tok": "ab", "path": ["h", "1"]}],
+                        "triggers": [], "horizon": 4000})
+    for delay in (100 * 1024, 250 * 1024, 4000 * 1024):
+        for ty in ("CON", "NON"):
+            out.append({"tuning": {"EMPTY_ACK_DELAY": 0.125}, "mid0": 7, "tok0": 3, "nremotes": 1,
+                        "handlers": {"1": {"delay": delay, "outcome": "nocode", "len": 8}},
+                        "steps": [{"at": 10, "do": "rx", "r": 1, "ty": ty, "code": 3, "mid": 77, "tok": "ab", "path": ["h", "1"]}],
+                        "triggers": [{"on": {"tx": {"ty": "CON", "cls": "resp", "nth": 1}}, "delay": 2, "rx": {"ty": "ACK", "code": 0, "mid": "same"}}],
+                        "horizon": delay + 20 * 1024})
     # every outcome once more as the *second* separate response to one peer, produced while the first one is
     # still awaiting its (late) acknowledgement: the response is held back by NSTART=1 and goes out later
     for oc in OUTCOMES:
